@@ -44,9 +44,8 @@ class Creators:
     """
     if self._version is None:
       self._version = self._version_guess
-    for i in range(0,len(self._line_queue)):
-      self.add_line(self._line_queue[i])
-    self._line_queue = []
+    while self._line_queue:
+      self.add_line(self._line_queue.pop(0))
 
   def _register_line(self, gfa_line):
     self._api_private_check_gfa_line(gfa_line, "_register_line")
@@ -93,22 +92,68 @@ class Creators:
       if isinstance(gfa_line, str):
         gfa_line = gfapy.Line(gfa_line, dialect=self._dialect)
       gfa_line.connect(self)
-    elif rt == "H":
-      self._n_input_header_lines += 1
+    elif rt in ["H", "S", "E", "F", "G", "U", "O"]:
+      # these lines may decide the version and trigger the processing of
+      # the line queue; if anything fails, the previous state is restored
+      saved = self.__save_state_unknown_version()
+      try:
+        self.__add_version_deciding_line(rt, gfa_line)
+      except:
+        self.__restore_state_unknown_version(saved)
+        raise
+    elif rt in ["L", "C", "P"]:
+      self._version_guess = "gfa1"
+      self._line_queue.append(gfa_line)
+    else:
+      self._line_queue.append(gfa_line)
+
+  def __save_state_unknown_version(self):
+    registered = set()
+    for collection in self._records.values():
+      if isinstance(collection, dict):
+        registered.update(id(v) for v in collection.values())
+    return (list(self._line_queue), self._n_input_header_lines,
+            self._version_guess, self.header._save_tags(), registered)
+
+  def __restore_state_unknown_version(self, saved):
+    queue, n_input_header_lines, version_guess, header_tags, registered = saved
+    added = []
+    for rt, collection in self._records.items():
+      if isinstance(collection, dict):
+        for v in collection.values():
+          if isinstance(v, dict):
+            added.extend(v.values())
+          elif id(v) not in registered:
+            added.append(v)
+    for line in added:
+      if line.is_connected():
+        line.disconnect()
+    self._version = None
+    self._version_explanation = None
+    self._version_guess = version_guess
+    self._line_queue = queue
+    self._n_input_header_lines = n_input_header_lines
+    self.header._restore_tags(header_tags)
+
+  def __add_version_deciding_line(self, rt, gfa_line):
+    if rt == "H":
       if isinstance(gfa_line, str):
         gfa_line = gfapy.Line(gfa_line, vlevel=self._vlevel,
             dialect=self._dialect)
-      self.header._merge(gfa_line)
+      version = None
       if gfa_line.VN:
         if gfa_line.VN == "1.0":
-          self._version = "gfa1"
+          version = "gfa1"
         elif gfa_line.VN == "2.0":
-          self._version = "gfa2"
+          version = "gfa2"
         else:
-          self._version = gfa_line.VN
+          raise gfapy.VersionError(
+            "GFA specification version {} not supported".format(gfa_line.VN))
+      self._n_input_header_lines += 1
+      self.header._merge(gfa_line)
+      if version:
+        self._version = version
         self._version_explanation = "specified in header VN tag"
-        if self._vlevel > 0:
-          self._validate_version()
         self.process_line_queue()
     elif rt == "S":
       if isinstance(gfa_line, str):
@@ -127,11 +172,6 @@ class Creators:
             version=self._version, dialect=self._dialect)
       self.process_line_queue()
       gfa_line.connect(self)
-    elif rt in ["L", "C", "P"]:
-      self._version_guess = "gfa1"
-      self._line_queue.append(gfa_line)
-    else:
-      self._line_queue.append(gfa_line)
 
   def __add_line_GFA1(self, gfa_line):
     if isinstance(gfa_line, str):
